@@ -214,6 +214,28 @@ def r3_arg_sort(prog: Program, rep: Report, rule: str = "C19.R3"):
                 return
             if plain or not convs:
                 ok = True
+    if not ok:
+        # the same question on symbolic values: named key functions, a named range, locals in between do not matter
+        from ..paths import strip_versions, summaries
+        ps_, un_ = summaries(prog, f, None)
+        E = ("p", el)
+        want = ("call", "sorted", (("call", "range", (("call", "len", (E,)),)),
+                                   ("key", ("lambda", 1, ("sub", E, ("arg", 0)))), ("reverse", ("p", rev))))
+        alt = ("call", "sorted", (("call", "range", (("call", "len", (E,)),)),
+                                  ("key", ("attr", E, "__getitem__")), ("reverse", ("p", rev))))
+
+        def canon(t):
+            t = strip_versions(t)
+            if isinstance(t, tuple) and t[0] == "call" and t[1] == "sorted":
+                pos = tuple(a for a in t[2] if not (isinstance(a, tuple) and len(a) == 2 and isinstance(a[0], str) and a[0] in ("key", "reverse")))
+                kws = tuple(sorted((a for a in t[2] if isinstance(a, tuple) and len(a) == 2 and isinstance(a[0], str) and a[0] in ("key", "reverse")),
+                                   key=lambda a: a[0]))
+                return ("call", "sorted", pos + kws)
+            return t
+        rets_ = [p_ for p_ in ps_ if p_.exit == "return"]
+        if not un_ and rets_ and all(canon(p_.value) in (want, alt) for p_ in rets_) and not any(e[0] == "call" and e[1] not in ("sorted", "range", "len")
+                                                                                               for p_ in rets_ for e in p_.events):
+            ok = True
     if ok:
         rep.ok(rule, f, "delegates", f"sorted(range(len({el})), key={el}[i], reverse={rev})")
         return
